@@ -1,3 +1,124 @@
+(* C20 — the lemmas the property theorems are stated from, and for each theorem an Example showing
+   that its hypotheses are met by a concrete, non-trivial input (and what happens without them). *)
 From Coq Require Import String Ascii NArith ZArith Bool Arith List Lia.
-From NGF Require Import C20.Model C20.Spec.
+From NGF Require Export C20.Model C20.Spec C20.ProofsSafe C20.ProofsEndpoint C20.ProofsLex C20.ProofsDoc C20.ProofsStatic.
 Import ListNotations.
+
+(* ------------------------------------------------------------------ documented => accepted, in the readable form *)
+
+Lemma doc_plain_intro : forall h n, (subdomain_ok h = true \/ ipv4_ok h = true) -> (1 <= n <= 65535)%N ->
+  doc_endpoint_plain (h ++ c_colon :: dec n) = true.
+Proof.
+  intros h n Hh Hn. assert (Hp := dec_port_ok n Hn). destruct (port_ok_plain _ Hp) as (P1 & _).
+  unfold doc_endpoint_plain. rewrite (split_last_app _ _ _ P1), Hp. simpl.
+  destruct Hh as [Hh|Hh]; rewrite Hh; [reflexivity|apply orb_true_r].
+Qed.
+
+Lemma documented_endpoint_accepted : forall h n,
+  (subdomain_ok h = true \/ ipv4_ok h = true) -> (1 <= n <= 65535)%N ->
+  validate_endpoint repaired (h ++ c_colon :: dec n) = true /\
+  validate_endpoint_optional_port repaired (h ++ c_colon :: dec n) = true.
+Proof.
+  intros h n Hh Hn. assert (H := doc_plain_intro h n Hh Hn).
+  split; [exact (doc_endpoint_plain_accepted _ H)|exact (doc_endpoint_plain_accepted_opt _ H)].
+Qed.
+
+Lemma resource_name_exact : forall s, validate_resource_name s = subdomain_ok s.
+Proof.
+  intro s. unfold validate_resource_name. destruct s as [|c r]; [reflexivity|]. simpl is_nil. cbv iota.
+  apply subdomain_model_is_spec.
+Qed.
+
+Lemma namespace_name_exact : forall s, validate_namespace_name s = namespace_ok s.
+Proof. intro s. apply label_model_is_spec. Qed.
+
+Lemma namespaced_name_exact : forall s, parse_namespaced_resource_name s = doc_nsname s.
+Proof.
+  intro s. unfold parse_namespaced_resource_name, doc_nsname.
+  destruct s as [|c r]; [reflexivity|]. simpl is_nil. cbv iota.
+  destruct (split_on c_slash (c :: r)) as [|x [|y [|z t]]]; try reflexivity.
+  rewrite namespace_name_exact, resource_name_exact.
+  destruct (namespace_ok x); destruct (subdomain_ok y); reflexivity.
+Qed.
+
+Lemma mgmt_conf_tokens : forall v e r skip ca client,
+  (e = [] \/ validate_endpoint_optional_port v e = true) ->
+  (r = [] \/ validate_endpoint_optional_port v r = true) ->
+  lex (render_mgmt {| m_endpoint := e; m_resolver := r; m_skip_verify := skip; m_ca := ca; m_client := client |}) =
+  Some (mgmt_tokens e r skip ca client).
+Proof.
+  intros v e r skip ca client He Hr.
+  apply (mgmt_lex {| m_endpoint := e; m_resolver := r; m_skip_verify := skip; m_ca := ca; m_client := client |}); simpl.
+  - destruct He as [->|He]; [left; reflexivity|right].
+    exact (endpoint_sound_safe _ _ (validate_endpoint_optional_port_sound _ _ He)).
+  - destruct Hr as [->|Hr]; [left; reflexivity|right].
+    exact (endpoint_sound_safe _ _ (validate_endpoint_optional_port_sound _ _ Hr)).
+Qed.
+
+(* ------------------------------------------------------------------ D23 on the tree as found *)
+
+Lemma D23_witness :
+  doc_endpoint (lit "example.com:32768") = true /\
+  validate_endpoint as_found (lit "example.com:32768") = false /\
+  validate_endpoint_optional_port as_found (lit "example.com:32768") = false /\
+  validate_endpoint repaired (lit "example.com:32768") = true.
+Proof. vm_compute. repeat split; reflexivity. Qed.
+
+(* ------------------------------------------------------------------ non-vacuity *)
+
+Example ex_documented_hosts :
+  subdomain_ok (lit "usage.example-1.com") = true /\ ipv4_ok (lit "10.0.255.1") = true /\
+  dec 65535 = lit "65535" /\
+  validate_endpoint repaired (lit "usage.example-1.com" ++ c_colon :: dec 65535) = true /\
+  validate_endpoint as_found (lit "usage.example-1.com" ++ c_colon :: dec 65535) = false /\
+  validate_endpoint repaired (lit "10.0.255.1:1") = true /\
+  validate_endpoint repaired (lit "10.0.255.1:0") = false /\
+  validate_endpoint repaired (lit "10.0.255.1:65536") = false.
+Proof. vm_compute. repeat split; reflexivity. Qed.
+
+(* IPv6 hosts: not covered by the general acceptance theorem; the documented forms, by evaluation *)
+Example ex_ipv6 :
+  forallb (fun s => ipv6_ok (lit s) && validate_ip (lit s))
+    ["::"; "::1"; "1::"; "2001:db8::1"; "2001:DB8:0:0:8:800:200C:417A"; "fe80::1:2:3:4:5:6";
+     "::ffff:192.0.2.128"; "64:ff9b::192.0.2.33"; "1:2:3:4:5:6:7:8"; "1:2:3:4:5:6:1.2.3.4"]%string = true /\
+  forallb (fun s => negb (ipv6_ok (lit s)) && negb (validate_ip (lit s)))
+    ["1:2:3:4:5:6:7:8:9"; "1:2:3:4:5:6:7::8"; "::1::"; "12345::"; "1:2:3:4:5:1.2.3.4"; "fe80::1%eth0"; ":1"; "1:";
+     "::1.2.3"; "::01.2.3.4"; "g::"]%string = true /\
+  validate_endpoint repaired (lit "[2001:db8::1]:65535") = true /\
+  doc_endpoint (lit "[2001:db8::1]:65535") = true /\
+  validate_endpoint as_found (lit "[2001:db8::1]:65535") = false.
+Proof. vm_compute. repeat split; reflexivity. Qed.
+
+Example ex_safe_is_needed :
+  (* an accepted value, and the tokens of the mgmt.conf it produces *)
+  validate_endpoint_optional_port repaired (lit "nim.example.com:443") = true /\
+  lex (render_mgmt {| m_endpoint := lit "nim.example.com:443"; m_resolver := lit "10.0.0.10"; m_skip_verify := true;
+                      m_ca := false; m_client := false |}) =
+    Some [word "mgmt"; TOpen; word "usage_report"; word "endpoint=nim.example.com:443"; TSemi;
+          word "resolver"; word "10.0.0.10"; TSemi;
+          word "license_token"; word "/etc/nginx/secrets/license.jwt"; TSemi;
+          word "deployment_context"; word "/etc/nginx/main-includes/deployment_ctx.json"; TSemi;
+          word "ssl_verify"; word "off"; TSemi; TClose] /\
+  (* a value that is not a safe token would add a directive: it is refused, and the theorem does not cover it *)
+  validate_endpoint_optional_port repaired (lit "a.b; load_module /tmp/x.so") = false /\
+  safe_token (lit "a.b; load_module /tmp/x.so") = false /\
+  lex (render_mgmt {| m_endpoint := lit "a.b; load_module /tmp/x.so"; m_resolver := []; m_skip_verify := false;
+                      m_ca := false; m_client := false |}) <>
+    Some (mgmt_tokens (lit "a.b; load_module /tmp/x.so") [] false false false).
+Proof. vm_compute. repeat split; try reflexivity. discriminate. Qed.
+
+Definition ex_args (m h : option str) : static_args :=
+  {| a_ctlr := Some (lit "gateway.nginx.org/nginx-gateway-controller"); a_class := Some (lit "nginx");
+     a_gateway := Some (lit "nginx-gateway/gw"); a_config := Some (lit "ngf-config"); a_service := Some (lit "ngf");
+     a_metrics_port := m; a_health_port := h; a_lock := None; a_plus := true; a_secret := None;
+     a_endpoint := Some (lit "nim.example.com:443"); a_resolver := Some (lit "10.0.0.10:53");
+     a_client_secret := None; a_ca_secret := Some (lit "nim-ca"); a_telemetry_endpoint := lit "oss.edge.df.f5.com:443" |}.
+
+Example ex_static :
+  stage_started (run_static repaired (ex_args None None)) = true /\
+  stage_started (run_static repaired (ex_args (Some (lit "9000")) (Some (lit "9001")))) = true /\
+  run_static repaired (ex_args (Some (lit "9000")) (Some (lit "9000"))) = RejectedByRun /\
+  run_static repaired (ex_args (Some (lit "8081")) None) = RejectedByRun /\
+  run_static repaired (ex_args (Some (lit "+9000")) (Some (lit "9000"))) = RejectedByRun /\
+  run_static repaired (ex_args (Some (lit "1023")) None) = RejectedByFlags.
+Proof. vm_compute. repeat split; reflexivity. Qed.
